@@ -104,6 +104,30 @@ def step (st : St) (ts : List String) : St × String :=
         let r := doWrite st k (.array t vs)
         let dump := vs.flatMap fun v => (leBytes (sizeofT t) (norm t v)).reverse
         (r.1, r.2 ++ " " ++ hex dump)
+  | "was" :: hs =>
+    if st.reading then (st, "closed") else
+    match hs.mapM unhex with
+    | none => (st, "bad-op")
+    | some ss =>
+      match putStrArray k st.we ss with
+      | none => (st, "object-memory")
+      | some _ => doWrite st k (.strArray ss)
+  | ["wself"] =>
+    if st.reading then (st, "closed") else
+    if k != .sb then (st, "na") else
+    -- `b << *b`: the ByteArray written is the buffer's own content
+    doWrite st k (.bytes st.out)
+  | ["wselfpart", ks, ns] =>
+    if st.reading then (st, "closed") else
+    if k != .sb then (st, "na") else
+    match ks.toNat?, ns.toNat? with
+    | some a, some n =>
+      if ks.length > 9 ∨ ns.length > 9 then (st, "bad-op") else
+      let a := a % (st.out.length + 1)
+      let n := n % (st.out.length - a + 1)
+      -- `b.write(b.data() + a, n)`
+      doWrite st k (.bytes ((st.out.drop a).take n))
+    | _, _ => (st, "bad-op")
   | ["wb", h] =>
     if st.reading then (st, "closed") else
     match unhex h with
@@ -136,6 +160,20 @@ def step (st : St) (ts : List String) : St × String :=
         match readOp k st.re st.rest (.scalar t) with
         | (e, rest, .val _ v) => ({ st with re := e, rest := rest }, hexW (sizeofT t) v)
         | _ => (st, "bad-op")
+  | ["ra", tys, ns] =>
+    if !st.reading then (st, "not-reading") else
+    match parseTy tys, ns.toNat? with
+    | some t, some n =>
+      if ns.length > 3 then (st, "bad-op")
+      else if k == .sb then (st, "na")
+      else if st.rest.length < n * sizeofT t then (st, "eof")
+      else if t == .b ∧ (st.rest.take n).any (· > 1) then (st, "na-bool")
+      else
+        match readOp k st.re st.rest (.array t n) with
+        | (e, rest, .vals _ vs) =>
+          ({ st with re := e, rest := rest }, hex (vs.flatMap fun v => (leBytes (sizeofT t) v).reverse))
+        | _ => (st, "bad-op")
+    | _, _ => (st, "bad-op")
   | ["rb", ns] =>
     if !st.reading then (st, "not-reading") else
     match ns.toNat? with
@@ -153,6 +191,12 @@ def step (st : St) (ts : List String) : St × String :=
       let n := n % (st.rest.length + 1)
       let r := readOp k st.re st.rest (.skip n)
       ({ st with re := r.1, rest := r.2.1 }, "ok")
+  | ["rsame", h] =>
+    -- probe of known finding `string-read-not-inverse`: what "read the same type back" would have to return
+    if !st.reading then (st, "not-reading") else
+    match unhex h with
+    | none => (st, "bad-op")
+    | some bs => if k == .sb ∨ st.rest.length < 4 then (st, "na") else (st, s!"{bs.length} {hex bs}")
   | ["rs"] =>
     if !st.reading then (st, "not-reading") else
     match getString k st.re st.rest with
